@@ -193,13 +193,13 @@ pub fn campaign(id: &str, tier: Tier) -> SeqCampaign {
             SeqCampaign {
                 property: "C12",
                 level: "exploration",
-                strategy: case_strategy(&bias),
+                strategy: proptest::strategy::Union::new_weighted(vec![(9, case_strategy(&bias)), (1, crate::ops::budget_explicit_strategy())]).boxed(),
                 flags: Flags { results: true, snapshot: true, ts: true, ..Flags::default() },
                 owned: vec!["ts", "snapshot#ts"],
                 cases: tier.pick(1600, 12000),
                 shrink_iters: 300,
                 nontrivial: c12_nt,
-                rule: format!("{base_rule}40-130 keys per case (so the 64 clock shards collide), mixes of automatic and explicit (past, relative, far-future, near-maximum) timestamps over all mutating calls, failing explicit calls, flush and reopen. After each accepted automatic call the assigned timestamp (peek hook) must exceed the key's previous timestamp and every explicit timestamp accepted for the key since the last restart, must not exceed max(now, highest accepted/assigned/recovered timestamp + 1) (a failed call's timestamp was not absorbed), must not be the maximum unless the key itself was pinned there, an automatic call is never rejected as older unless the key is pinned, and recovered timestamps equal the model's. Non-trivial: an automatic call on a key whose timestamp was explicit and in the future, or directly after reopen, or after a failed explicit call carrying a future timestamp."),
+                rule: format!("{base_rule}40-130 keys per case (so the 64 clock shards collide), mixes of automatic and explicit (past, relative, far-future, near-maximum) timestamps over all mutating calls, failing explicit calls, flush and reopen; one case in ten runs a handful of keys against a 2.5-9 KB memory budget with growing updates (copying and zero-copy API) that carry explicit future timestamps and are refused with OutOfMemory. After each accepted automatic call the assigned timestamp (peek hook) must exceed the key's previous timestamp and every explicit timestamp accepted for the key since the last restart, must not exceed max(now, highest accepted/assigned/recovered timestamp + 1) (a failed call's timestamp was not absorbed), must not be the maximum unless the key itself was pinned there, an automatic call is never rejected as older unless the key is pinned, and recovered timestamps equal the model's. Non-trivial: an automatic call on a key whose timestamp was explicit and in the future, or directly after reopen, or after a failed explicit call carrying a future timestamp."),
                 assumptions: vec![ASSUME_CLOCK.into(), "explicit timestamps of keys deleted before a restart are not required to be remembered across that restart".into()],
                 extra: None,
             }
